@@ -25,6 +25,23 @@ THEOREMS = [
     "C23_subclass_is_closure",
     "C23_unfed_step_unreachable",
     "C23_unfed_step_rejected",
+    # extension: offender sets, skip sets, order of the steps
+    "C23_graph_offenders_exact",
+    "C23_skip_only_affects_graph_checks",
+    "C23_skip_monotone",
+    "C23_all_skipped",
+    "C23_dangling_only_human_response",
+    "C23_unconsumed_return_rejected",
+    "C23_order_independent",
+    # extension: the whole result record, and the life of a verdict (add_step / validate() / cached _validate())
+    "C23_result_record",
+    "C23_result_iff_wellformed",
+    "C23_cache_source_shape",
+    "C23_session_names_distinct",
+    "C23_cached_verdict_is_fresh",
+    "C23_session_accepts_iff_wellformed",
+    "C23_validated_instance_is_fresh",
+    "C23_disabled_instance_skips_validation",
 ]
 LEAN_TARGETS = ["WfProps.C23"]
 EXPLANATION = (
@@ -49,7 +66,24 @@ EXPLANATION = (
     "engine delivers (start event, HumanResponseEvent types, handler steps by name), so an ordinary step consuming an event type "
     "nothing feeds - StepFailedEvent next to wildcard / scoped handlers or without handlers - must be rejected "
     "(C23_unfed_step_unreachable / _rejected); such steps are generated dead, in dead chains, live through a union or a producer, "
-    "and with the check skipped."
+    "and with the check skipped.  "
+    "Extension: the names a graph error carries are exactly the offenders (member by member); only the graph checks read "
+    "skip_graph_checks, skipping more never rejects, with all three skipped exactly the unskippable clauses decide; once event "
+    "connectivity holds the terminal-event check can only report returned-and-unconsumed HumanResponseEvent types; the verdict "
+    "(accept / flag / failing clause / offender sets) does not depend on the order of the steps dict.  The whole result record of "
+    "_validate_workflow is modelled (start and stop classes, handler descriptors, the handler_for_step routing table: scoped claims, "
+    "then the wildcard for unclaimed non-handler steps) and compared (op X).  Sessions: a second model (WfModel/ValidateCache.lean) "
+    "covers Workflow.__init__, add_step (per-class _step_functions, the class version looked up along the subclass chain), "
+    "validate() (forced) and the cached _validate() that run() calls; theorems over every history of class definitions, add_step "
+    "calls, constructions and validations: step names stay distinct, a cached verdict is never stale (the answer is the answer "
+    "of a fresh _validate_workflow on the current steps), hence run()-time validation passes iff the current step set is well "
+    "formed, and the start/stop classes, handler descriptors and routing table the engine reads are the fresh ones.  The guards "
+    "of _validate, the version bump of add_step and which entry point forces are regenerated (harness/gen/validate_cache.py) and "
+    "pinned by C23_cache_source_shape.  Real chains of Workflow subclasses with instances, free-function steps added between "
+    "validations, validate() and _validate() are run against the compiled session model (answers and the instance's attributes "
+    "after every call), with a model-independent monitor: every _validate() answer equals a fresh _validate_workflow on the "
+    "instance's current steps (`C23/stale_cached_verdict`), the attributes equal the fresh result (`C23/stale_validation_state`), "
+    "and the reference oracle is applied to the current step set."
 )
 ASSUMPTIONS = [
     "accepted_events / return_types hold classes (issubclass never raises); generic aliases and other non-class annotations are out of the domain",
@@ -59,10 +93,15 @@ ASSUMPTIONS = [
     "the @step / @catch_error decorators and typing.get_type_hints turn annotations into StepConfig lists as read back from the real objects (the model starts from StepConfig)",
     "Python set iteration order only affects the order of names inside messages; offending sets are compared sorted",
     "the model's `incoming` adjacency lists are in edge-insertion order, the code's in dict order of `outgoing`: irrelevant, C23_dfs_is_reachability holds for every order",
+    "sessions: classes form one subclass chain below Workflow (class k+1 derives from class k); nobody calls Workflow.add_step on the root class itself, "
+    "mutates _step_functions / _step_functions_version directly or replaces methods after the class statement; @catch_error handlers are methods",
+    "sessions: resource validation is outside (generated steps declare no resources), so a successful _validate_workflow is a successful _validate",
 ]
 TRUSTED_EXTRA = [
     "harness/gen/validate.py (AST extraction of the class tuples, check order, _dfs body and flag expression into WfModel/GenValidate.lean)",
     "message-to-kind classifier for WorkflowConfigurationError / WorkflowValidationError texts in harness/props/c23.py",
+    "harness/gen/validate_cache.py (AST extraction of the guards of Workflow._validate, the version bump of add_step and the force arguments into WfModel/GenValidateCache.lean)",
+    "harness/c23_session.py (building real Workflow subclass chains / free-function steps from a session description and reading the instance attributes back)",
 ]
 
 ROOT_NAMES = ["Event", "StartEvent", "StopEvent", "InputRequiredEvent", "HumanResponseEvent", "StepFailedEvent", "NoneType"]
@@ -417,7 +456,10 @@ def run_case(case: dict) -> tuple[str, str, dict[str, Any], list[type]] | None:
     except WorkflowValidationError:
         return None
     steps = {name: fn._step_config for name, fn in wf_cls._get_steps_from_class().items()}
-    op = f"W {hier} {op_steps(steps, classes)} {skip_txt}"
+    try:
+        op = f"W {hier} {op_steps(steps, classes)} {skip_txt}"
+    except KeyError as e:  # a step that does not belong to this class (its events are of another class pool)
+        return f"W {hier} 0 {skip_txt}", f"err other:class lists a step it never declared ({e})", steps, classes
     try:
         wf = wf_cls(skip_graph_checks=set(case["skip"]))
         steps2 = wf._step_configs()
@@ -1007,11 +1049,16 @@ def run_batch(env: Env, out: Outcome, cases: list[tuple[dict, str]], hiers: list
         if kind not in ("err noStart", "err noStop", "err noSteps"):
             out.nontrivial(op)
         out.sample({"label": label, "op": op, "impl": res})
-        v = monitor(case, res, steps, out, _classes)
+        try:
+            v = monitor(case, res, steps, out, _classes)
+        except KeyError as e:  # an event class that is not of this case's pool: the class lists a step it never declared
+            v = Violation("C23/unexpected_error:foreign_step", f"the workflow class lists a step it never declared ({e!r}); answer {res}", case)
         if v is not None:
             out.violations.append(v)
     _diff(out, "validate", ops, exp, ctx)
     graph_corr(env, out, [c for c, _l in cases if c["path"] == "V"][:graph_n])
+    from ..c23_session import result_corr
+    result_corr(out, [c for c, _l in cases if c["path"] == "V"][:max(graph_n, 100)])
     hier_corr(env, out, hiers)
     _POOL_CACHE.clear()
     gc.collect()
@@ -1025,13 +1072,23 @@ def run(env: Env) -> Outcome:
     out.rule = ("class tables with chains / multiple inheritance x constructed mostly-valid workflows (backbone, unions, None returns, "
                 "HITL events, handlers, ordinary StepFailedEvent consumers in ~16%, skip settings) with one mutation in ~38% + unconstrained small step sets; both as StepConfig dicts "
                 "(_validate_workflow) and as real Workflow subclasses (constructor + validate()); non-trivial = accepted or rejected by a "
-                "check after start/stop inference; distinct by op line")
+                "check after start/stop inference; distinct by op line.  Sessions: a generated workflow split into the methods of a first class "
+                "and free-function steps added later (35% of the plain steps), 8-24 further ops: instances (12% disable_validation, skip sets), "
+                "validate(), _validate() (30%), add_step of a planned or an extra step (extending, HITL-flipping, breaking connectivity, "
+                "duplicate name, second start type, island, StopEvent consumer), up to three further subclasses (new / overriding methods); "
+                "how each _validate() was answered (first / cache-hit / stale-revalidate / disabled) is counted")
     rng = random.Random(env.rng.randrange(1 << 30))
+    from ..c23_session import corpus_sessions, gen_session, run_sessions
+
     first: list[tuple[dict, str]] = []
+    first_sessions: list[tuple[dict, str]] = []
     if env.replay is not None:
         rc = env.replay["payload"]["case"]
         if isinstance(rc, dict) and "steps" in rc:
             first.append((rc, "replay"))
+        if isinstance(rc, dict) and "session" in rc:
+            first_sessions.append((rc["session"], "replay"))
+    run_sessions(env, out, first_sessions + corpus_sessions())
     first += corpus()
     wpath = os.path.join(VERIF, "harness", "corpus", "c23_hitl_subclass.json")
     if os.path.exists(wpath):
@@ -1064,4 +1121,22 @@ def run(env: Env) -> Outcome:
         done += len(cases)
         run_batch(env, out, cases, hiers, max(1, len(cases) // 4))
     dfs_corr(env, out, env.budget(1500, 60000))
+    # sessions: chains of real Workflow subclasses, add_step between validations, validate() / cached _validate()
+    srng = random.Random(env.rng.randrange(1 << 30))
+    n_sessions = env.budget(400, 5000)
+    sdone = 0
+    while sdone < n_sessions:
+        chunk: list[tuple[dict, str]] = []
+        for i in range(min(400, n_sessions - sdone)):
+            if i % 4 == 0:
+                for _ in range(20):
+                    sb = gen_hier(srng)
+                    fam = _families(sb)
+                    if build_classes(sb) is not None and fam["plain"] and fam["ir"] and fam["hr"]:
+                        break
+            chunk.append((gen_session(srng, sb), "generated"))
+        sdone += len(chunk)
+        run_sessions(env, out, chunk)
+        _POOL_CACHE.clear()
+        gc.collect()
     return out
